@@ -149,16 +149,19 @@ def plan_rules(ctx, I):
         # ones that return the end point alone)
         ranges = [e for e in s.trace if e[0] == 'range' and e[2].endswith('planArc')]
         ctx.instance('C16.R5', ('range', len(el), len(ranges)))
-        if len(ranges) != 1 or len(ranges[0][1]) != 2 or not all(isinstance(a, Num) for a in ranges[0][1]):
+        if len(ranges) != 1 or len(ranges[0][1]) not in (1, 2) or not all(isinstance(a, Num) for a in ranges[0][1]):
             ctx.report('C16.R5', where, 'sample count not derived from the arc length (%d samples)' % (len(el) // 2),
                        'the list of samples is produced without a loop over range(1, n) with n computed from the arc length: '
                        'short-radius or special-cased arcs are not subdivided')
             continue
-        lo, hi = ranges[0][1]
-        if not (lo.is_const() and lo.p.const_value() == 1):
-            ctx.report('C16.R4', where, 'loop starts at %r' % (lo.p,), 'n segments need n-1 intermediate samples: range(1, n)')
-        if not density_ok(I, s, hi.p):
-            ctx.report('C16.R5', where, 'segment count %s' % repr(hi.p)[:80],
+        rargs = ranges[0][1]
+        count = (rargs[1].p - rargs[0].p) if len(rargs) == 2 else rargs[0].p      # number of loop iterations
+        nseg = count + Poly.const(1)                                             # n segments <=> n-1 intermediate samples
+        if nseg.single_symbol() is None:
+            ctx.report('C16.R4', where, 'loop runs %r times' % (count,), 'n segments need exactly n-1 intermediate samples')
+            continue
+        if not density_ok(I, s, nseg):
+            ctx.report('C16.R5', where, 'segment count %s' % repr(nseg)[:80],
                        'the segment count must be ceil(|sweep| * radius / K) with K <= 1 (clamped to at least 1), so that '
                        'neighbouring samples are at most one unit apart')
             continue
@@ -209,9 +212,9 @@ def plan_rules(ctx, I):
             ctx.report('C16.R4', where, 'step is not travel / n', 'the angular step is not the sweep divided by the segment count')
             continue
         # number of intermediate samples = n - 1: the loop runs over range(1, n)
-        rng = [k for k in s.dom if k[0] == 'more' and str(k[1]).startswith('range(')]
-        if rng and not all(str(k[1]) == 'range(1,%r)' % (npoly,) for k in rng):
-            ctx.report('C16.R4', where, 'loop bounds %s' % str(rng[0][1])[:60], 'n segments need n-1 intermediate samples: the loop must run over range(1, n)')
+        if npoly != nseg:
+            ctx.report('C16.R4', where, 'step count differs from the loop count', 'the angular step divides the sweep by %r but the loop '
+                       'produces %r - 1 samples' % (npoly, nseg))
         # R4b / R4c: direction and sweep
         theta = None
         for nme, info in I.syminfo.items():
